@@ -99,7 +99,7 @@ class G:
             cands += ["affine_image", "affine_image", "affine_preimage", "generalized_affine_image", "generalized_affine_preimage",
                       "bounded_affine_image", "bounded_affine_preimage", "unconstrain", "unconstrain_set",
                       "remove_space_dimensions", "remove_higher_space_dimensions", "map_space_dimensions",
-                      "expand_space_dimension", "fold_space_dimensions", "generalized_affine_image_lhs"]
+                      "expand_space_dimension", "fold_space_dimensions", "generalized_affine_image_lhs", "generalized_affine_preimage_lhs"]
         cands += ["concatenate_assign"]
         if ops: cands = [c for c in cands if c in ops] or cands
         op = r.choice(cands)
@@ -132,7 +132,7 @@ class G:
         if op in ("generalized_affine_image", "generalized_affine_preimage"):
             rel = r.choice(["<=", ">=", "=="] + (["<", ">"] if topo == "NNC" else []))
             return "%s %d %s %d %s" % (p, r.randrange(n), rel, self.den(), self.expr(n))
-        if op == "generalized_affine_image_lhs":
+        if op in ("generalized_affine_image_lhs", "generalized_affine_preimage_lhs"):
             rel = r.choice(["<=", ">=", "=="] + (["<", ">"] if topo == "NNC" else []))
             return "%s %s %s %s" % (p, self.expr(n), rel, self.expr(n))
         if op in ("bounded_affine_image", "bounded_affine_preimage"):
